@@ -98,7 +98,7 @@ def rand_raw(rng, flat):
 
 
 def run(ctx):
-    ctx.prove(["PvModel.Props.C14", "PvModel.Props.R13", "PvModel.Props.T14"])
+    ctx.prove(["PvModel.Props.C14", "PvModel.Props.R13", "PvModel.Props.T14", "PvModel.Props.R14"])
     ctx.suites_run.append(SUITE)
     rng = ctx.rng
     ctx.rule("variable lists: every kind sequence of length 1..2 over the seven kinds (exhaustive), random sequences of length 3..4, "
